@@ -41,7 +41,7 @@ func blockingOp(ins ssa.Instruction) string {
 }
 
 func c19(c *Ctx) {
-	c.R.Explanation = "C19: the structural preconditions of the time bound and of crash-freedom of util.SafeCmdExecution are decided on the SSA of /repo: R-deadline = the *exec.Cmd that is run comes from exec.CommandContext with a context from context.WithTimeout(_, timeout parameter), and every caller passes a constant timeout in (0, 2s]; R-waitdelay = Cmd.WaitDelay is stored with a non-zero value on every path before Output/Run/Wait (with captured output only WaitDelay bounds the wait for pipe holders); R-noblock = no unbounded blocking operation (channel send/receive, blocking select, mutex/WaitGroup/Cond wait, Sleep) in the call tree of SafeCmdExecution outside the logging package (anything waited for outside the context deadline is not covered by the timeout); R-noassert = no comma-less type assertion on an error value in that call tree; R-errpair = as in C09, over the call tree of SafeCmdExecution (os.Stat result used only after the documented tests); R-procstate = cmd.ProcessState (nil when the command could not be started) is dereferenced or used as a method receiver (other than the nil-tolerant ExitCode/String) only under a nil test; R-err = in SafeCmdExecution every return reachable from a failure edge (check error, Output error, deadline) carries a non-nil error or an error-typed value from the failing call; R-parse / R-cmderr = command fan/sensor methods return parse errors and command errors (never ignored). R-iodata = in SafeCmdExecution, its consumers and their call trees every index / slice / integer division on data that comes from a standard-library call is proved in bounds (shared with C09). R-errnil = as in C09, over SafeCmdExecution, its consumers and their call trees (cmd.Output() can return a nil error although the deadline fired). Not decided: the wall-clock bound itself."
+	c.R.Explanation = "C19: the structural preconditions of the time bound and of crash-freedom of util.SafeCmdExecution are decided on the SSA of /repo: R-deadline = the *exec.Cmd that is run comes from exec.CommandContext with a context from context.WithTimeout(_, timeout parameter), and every caller passes a constant timeout in (0, 2s]; R-waitdelay = Cmd.WaitDelay is stored with a non-zero value on every path before Output/Run/Wait (with captured output only WaitDelay bounds the wait for pipe holders); R-noblock = no unbounded blocking operation (channel send/receive, blocking select, mutex/WaitGroup/Cond wait, Sleep) in the call tree of SafeCmdExecution outside the logging package (anything waited for outside the context deadline is not covered by the timeout); R-noassert = no comma-less type assertion on an error value in that call tree; R-errpair = as in C09, over the call tree of SafeCmdExecution (os.Stat result used only after the documented tests); R-procstate = cmd.ProcessState (nil when the command could not be started) is dereferenced or used as a method receiver (other than the nil-tolerant ExitCode/String) only under a nil test; R-err = in SafeCmdExecution every return reachable from a failure edge (check error, Output error, deadline) carries a non-nil error or an error-typed value from the failing call; R-parse / R-cmderr = command fan/sensor methods return parse errors and command errors (never ignored). R-iodata = in SafeCmdExecution, its consumers and their call trees every index / slice / integer division on data that comes from a standard-library call is proved in bounds (shared with C09). R-errnil = as in C09, over SafeCmdExecution, its consumers and their call trees (cmd.Output() can return a nil error although the deadline fired). R-unlock = every function in the call tree of the command consumers (and every method of their receiver types) that acquires a mutex releases it on every path to a return (two-state typestate per mutex, deferred unlocks included). Not decided: the wall-clock bound itself."
 	c.R.Assumptions = append(c.R.Assumptions,
 		"os/exec semantics: CommandContext kills the process at the deadline; WaitDelay (Go >= 1.20) force-closes the pipes after the kill/exit",
 		"ui logging (package internal/ui) holds its mutex only while printing and is treated as non-blocking")
